@@ -43,6 +43,14 @@ type vbuf struct {
 	order []string
 	dist  map[string]struct{}
 	stats map[string]int
+	samps []any
+}
+
+// sample keeps at most 4 samples per task (flushed in task order).
+func (v *vbuf) sample(x any) {
+	if len(v.samps) < 4 {
+		v.samps = append(v.samps, x)
+	}
 }
 
 func (v *vbuf) add(key, what string, rep any) {
@@ -86,6 +94,9 @@ func (v *vbuf) flush() {
 	}
 	for k := range v.dist {
 		r.Distinct(k)
+	}
+	for _, x := range v.samps {
+		r.Sample(x)
 	}
 	statMu.Lock()
 	for k, n := range v.stats {
@@ -256,6 +267,7 @@ type checker struct {
 	nextSeq uint16
 	haveOff bool
 	tsOff   uint32
+	first   int64 // playing time of the first element of the previous unit (formats with a duration model)
 	vb      *vbuf
 }
 
@@ -283,17 +295,73 @@ func (c *checker) check(u *unit.Unit, pts int64, rep map[string]any, shape strin
 		c.haveSeq = true
 		c.nextSeq = p.SequenceNumber + 1
 	}
-	// 3. timestamps: unit PTS + fixed offset (first packet; video: all packets; audio: later packets not earlier)
+	// depacketize every generated packet with the repository's rtpDecoder (used by 3 and 4)
+	var perPkt [][][]byte // elements completed by each packet
+	decoded := false
+	if c.dec != nil && len(pkts) > 0 {
+		decoded = true
+		for i, p := range pkts {
+			q := p.Clone()
+			pl, err := c.dec(q)
+			if err != nil {
+				if strings.Contains(err.Error(), "need more packets") && i != len(pkts)-1 {
+					perPkt = append(perPkt, nil)
+					continue // the repository's KLV decoder does not filter this library error
+				}
+				c.vb.add(c.key+":depacketize-error", fmt.Sprintf("%s max=%d elements=%v: rtpDecoder fails on generated packet %d/%d: %v",
+					c.tag, c.max, sizesOf(delivered), i+1, len(pkts), err), rep)
+				decoded = false
+				break
+			}
+			l, _ := flatten(pl)
+			perPkt = append(perPkt, l)
+		}
+	}
+	// 3. timestamps: the first packet carries unit PTS + one constant per stream, whatever the unit contains; video:
+	// all packets of the unit carry it; audio / data: packet k carries the first packet's timestamp plus the playing time
+	// (reference model fc.ticks) of the elements completed by the packets before it (fragments of one element share it)
 	if len(pkts) > 0 {
 		off := pkts[0].Timestamp - uint32(pts)
 		if c.haveOff && off != c.tsOff {
-			c.vb.add(c.key+":timestamp-offset-varies", fmt.Sprintf("%s max=%d elements=%v pts=%d: first packet timestamp %d = pts + %d, earlier units had pts + %d",
-				c.tag, c.max, sizesOf(delivered), pts, pkts[0].Timestamp, off, c.tsOff), rep)
+			c.vb.add(c.key+":timestamp-offset-varies", fmt.Sprintf("%s max=%d elements=%v%s pts=%d: first packet timestamp - pts differs by %d ticks from the one of the earlier units (the per-stream offset itself is random)",
+				c.tag, c.max, sizesOf(delivered), c.heads(delivered), pts, int32(off-c.tsOff)), rep)
+		}
+		if c.fc.ticks != nil && len(delivered) > 0 {
+			if lo, _ := c.fc.ticks(delivered[:1]); lo >= 0 {
+				if c.haveOff && lo != c.first {
+					c.vb.stat("first_packet_offset_compared_across_units_of_different_first_element_duration:"+c.tag, 1)
+				}
+				c.first = lo
+			}
 		}
 		c.haveOff = true
 		c.tsOff = off
+		exact := !c.fc.video && c.fc.ticks != nil && decoded
+		var before [][]byte
 		for i, p := range pkts[1:] {
 			d := p.Timestamp - pkts[0].Timestamp
+			if exact {
+				before = append(before, perPkt[i]...)
+				lo, hi := c.fc.ticks(before)
+				if lo < 0 {
+					exact = false // outside the duration model
+				} else if int64(d) < lo || int64(d) > hi {
+					key := c.key + ":timestamp-inside-unit"
+					if c.fc.tsClass != nil {
+						key += c.fc.tsClass(int64(d), before)
+					}
+					c.vb.add(key, fmt.Sprintf("%s max=%d elements=%v%s: packet %d has timestamp first+%d, but the %d element(s) completed by the packets before it play %d ticks of the RTP clock (packet timestamps relative to the first: %v)",
+						c.tag, c.max, sizesOf(delivered), c.heads(delivered), i+1, int32(d), len(before), lo, relTS(pkts)), rep)
+					break
+				}
+				if i == len(pkts)-2 {
+					c.vb.stat("timestamps_inside_unit_judged_exactly", 1)
+					if lo > 0 {
+						c.vb.stat("timestamps_inside_unit_judged_exactly_advancing", 1)
+					}
+				}
+				continue
+			}
 			if (c.fc.video && d != 0) || (!c.fc.video && d >= 1<<31) {
 				c.vb.add(c.key+":timestamp-inside-unit", fmt.Sprintf("%s max=%d elements=%v: packet %d has timestamp %d, first packet %d",
 					c.tag, c.max, sizesOf(delivered), i+1, p.Timestamp, pkts[0].Timestamp), rep)
@@ -302,23 +370,10 @@ func (c *checker) check(u *unit.Unit, pts int64, rep map[string]any, shape strin
 		}
 	}
 	// 4. depacketizing yields the delivered payload
-	if c.dec != nil && len(pkts) > 0 {
+	if decoded {
 		var got [][]byte
 		var flat []byte
-		failed := false
-		for i, p := range pkts {
-			q := p.Clone()
-			pl, err := c.dec(q)
-			if err != nil {
-				if strings.Contains(err.Error(), "need more packets") && i != len(pkts)-1 {
-					continue // the repository's KLV decoder does not filter this library error
-				}
-				c.vb.add(c.key+":depacketize-error", fmt.Sprintf("%s max=%d elements=%v: rtpDecoder fails on generated packet %d/%d: %v",
-					c.tag, c.max, sizesOf(delivered), i+1, len(pkts), err), rep)
-				failed = true
-				break
-			}
-			l, _ := flatten(pl)
+		for _, l := range perPkt {
 			if isList {
 				got = append(got, l...)
 			} else {
@@ -327,21 +382,19 @@ func (c *checker) check(u *unit.Unit, pts int64, rep map[string]any, shape strin
 				}
 			}
 		}
-		if !failed {
-			if !isList {
-				got = one(flat)
-			}
-			ok := sameLists(got, delivered)
-			if !ok && c.fc.name == "mjpeg" && len(got) == 1 && len(delivered) == 1 {
-				ok = samePixels(got[0], delivered[0]) // RTP/JPEG regenerates the headers: compare decoded pixels
-			}
-			if !ok && c.fc.name == "av1" && len(got) < len(delivered) && total(got) == total(delivered) {
-				c.vb.add(c.key+":roundtrip-mismatch:adjacent-obus-merged", fmt.Sprintf("%s max=%d: delivered temporal unit has OBUs of sizes %v, depacketizing the %d generated packets (payload sizes %v) yields OBUs of sizes %v",
-					c.tag, c.max, sizesOf(delivered), len(pkts), pktSizes(pkts), sizesOf(got)), rep)
-			} else if !ok {
-				c.vb.add(c.key+":roundtrip-mismatch", fmt.Sprintf("%s max=%d: delivered payload has elements %v, depacketizing the %d generated packets yields %v",
-					c.tag, c.max, sizesOf(delivered), len(pkts), sizesOf(got)), rep)
-			}
+		if !isList {
+			got = one(flat)
+		}
+		ok := sameLists(got, delivered)
+		if !ok && c.fc.name == "mjpeg" && len(got) == 1 && len(delivered) == 1 {
+			ok = samePixels(got[0], delivered[0]) // RTP/JPEG regenerates the headers: compare decoded pixels
+		}
+		if !ok && c.fc.name == "av1" && len(got) < len(delivered) && total(got) == total(delivered) {
+			c.vb.add(c.key+":roundtrip-mismatch:adjacent-obus-merged", fmt.Sprintf("%s max=%d: delivered temporal unit has OBUs of sizes %v, depacketizing the %d generated packets (payload sizes %v) yields OBUs of sizes %v",
+				c.tag, c.max, sizesOf(delivered), len(pkts), pktSizes(pkts), sizesOf(got)), rep)
+		} else if !ok {
+			c.vb.add(c.key+":roundtrip-mismatch", fmt.Sprintf("%s max=%d: delivered payload has elements %v, depacketizing the %d generated packets yields %v",
+				c.tag, c.max, sizesOf(delivered), len(pkts), sizesOf(got)), rep)
 		}
 	}
 	frag := "1pkt"
@@ -364,10 +417,31 @@ func (c *checker) check(u *unit.Unit, pts int64, rep map[string]any, shape strin
 	c.vb.distinct(fmt.Sprintf("%s|max=%d|%s|%s|npkts=%d|biggest%s", c.tag, c.max, shape, frag, min(len(pkts), 6), rel))
 }
 
+// heads shows the first two bytes of every element (formats whose duration is coded in the element header).
+func (c *checker) heads(l [][]byte) string {
+	if c.fc.ticks == nil || c.fc.video || len(l) == 0 || len(l) > 3 {
+		return ""
+	}
+	p := make([]string, len(l))
+	for i, b := range l {
+		p[i] = fmt.Sprintf("%x", b[:min(len(b), 2)])
+	}
+	return " heads=" + strings.Join(p, ",")
+}
+
+func relTS(p []*rtp.Packet) []int32 {
+	out := make([]int32, len(p))
+	for i := range p {
+		out[i] = int32(p[i].Timestamp - p[0].Timestamp)
+	}
+	return out
+}
+
 var maxima = []int{1440, 1450, 1460, 100, 64} // mediamtx default (1452-12) first: the reported counterexample is the realistic one
 
 // sizeLists enumerates all lists over sizes up to maxList elements (quick: triples over a reduced alphabet).
-func sizeLists(sizes []int, maxList int, max int, thorough bool) [][]int {
+func sizeLists(fc *fmtCase, maxList int, max int, thorough bool) [][]int {
+	sizes := fc.sizes(max)
 	var out [][]int
 	for _, a := range sizes {
 		out = append(out, []int{a})
@@ -381,7 +455,9 @@ func sizeLists(sizes []int, maxList int, max int, thorough bool) [][]int {
 	}
 	if maxList >= 3 {
 		red := sizes
-		if !thorough || len(sizes) > 24 {
+		if fc.triples != nil {
+			red = fc.triples(max, thorough)
+		} else if !thorough || len(sizes) > 24 {
 			// reduced alphabet for triples: smallest, around half, around max, above 2*max
 			pick := map[int]struct{}{}
 			for _, t := range []int{1, 3, max/2 - 1, max / 2, max - 1, max, max + 1, 2*max + 1} {
@@ -417,7 +493,10 @@ func abs(x int) int {
 	return x
 }
 
-func shapeOf(sizes []int, max int) string {
+func shapeOf(fc *fmtCase, sizes []int, max int) string {
+	if fc.shape != nil {
+		return fc.shape(sizes, max)
+	}
 	p := make([]string, len(sizes))
 	for i, s := range sizes {
 		switch {
@@ -454,30 +533,35 @@ func runNonRTP(fc *fmtCase, max int, thorough bool, vb *vbuf) {
 	if err != nil {
 		vcommon.Harness("C23: newRTPDecoder(%s): %v", fc.name, err)
 	}
-	c := &checker{tag: fc.name, key: fc.name, fc: fc, max: max, dec: dec, vb: vb}
+	c := &checker{tag: fc.name, key: fc.keyName(), fc: fc, max: max, dec: dec, vb: vb}
 	pts := int64(1<<32 - 40*3000) // the 32-bit RTP timestamp wraps after 40 units
-	for _, sz := range sizeLists(fc.sizes(max), fc.maxList, max, thorough) {
+	for _, sz := range sizeLists(fc, fc.maxList, max, thorough) {
 		pts += 3000
 		in := fc.build(sz)
 		rep := map[string]any{"entry": "non-RTP publisher", "format": fc.name, "rtp_max_payload_size": max, "element_sizes": sz, "pts": pts}
 		u, pan := s.write(&unit.Unit{PTS: pts, Payload: in})
 		r.Eval(1)
 		if pan != "" {
-			vb.add(panicKey(fc.name, fc, max), fmt.Sprintf("%s max=%d elements=%v: WriteUnit panicked: %s", fc.name, max, sz, vcommon.Short(pan, 300)), rep)
+			vb.add(panicKey(fc.keyName(), fc, max), fmt.Sprintf("%s max=%d elements=%v: WriteUnit panicked: %s", fc.name, max, sz, vcommon.Short(pan, 300)), rep)
 			continue
 		}
 		if u == nil {
 			vb.stat("units_rejected:"+fc.name, 1) // no packet generated: the statement does not apply
-			vb.distinct(fmt.Sprintf("%s|max=%d|%s|rejected", fc.name, max, shapeOf(sz, max)))
+			vb.distinct(fmt.Sprintf("%s|max=%d|%s|rejected", fc.name, max, shapeOf(fc, sz, max)))
 			continue
 		}
 		if len(u.RTPPackets) == 0 {
 			vb.stat("units_without_packets:"+fc.name, 1)
 			continue
 		}
-		c.check(u, pts, rep, shapeOf(sz, max))
+		c.check(u, pts, rep, shapeOf(fc, sz, max))
+		if fc.name == "opus-durations" && max == 1440 && len(sz) == 3 && sz[0] != sz[1] && sz[1] != sz[2] {
+			l, _ := flatten(u.Payload)
+			vb.sample(map[string]any{"format": fc.name, "max": max, "opus_packets": opusDurShape(sz, max), "packet_heads": c.heads(l), "pts": pts,
+				"packets": len(u.RTPPackets), "timestamps_relative_to_first": relTS(u.RTPPackets)})
+		}
 		if fc.name == "h264" && max == 100 && len(sz) == 2 && sz[0] == 47 {
-			r.Sample(map[string]any{"format": fc.name, "max": max, "element_sizes": sz, "packets": len(u.RTPPackets), "payload_sizes": pktSizes(u.RTPPackets)})
+			vb.sample(map[string]any{"format": fc.name, "max": max, "element_sizes": sz, "packets": len(u.RTPPackets), "payload_sizes": pktSizes(u.RTPPackets)})
 		}
 	}
 }
@@ -527,13 +611,18 @@ func main() {
 	r.Rule = fmt.Sprintf("every format of newRTPEncoder (%d format configurations incl. G.711 mono/stereo, LPCM 16-bit stereo/24-bit 5.1, FLAC with its empty encoder) x", len(fcs)) +
 		" maximum payload size {64,100,1440,1450,1460} x element sizes {1,2,3, max/2-3..max/2+1, max-3..max+3, 2max-1..2max+1, 3max+7} " +
 		"(AC-3 / MPEG-1 audio: every valid frame size; M-JPEG: 12 generated images), all lists of <=2 elements and triples (quick: over 8 representative sizes) for list payloads; " +
+		fmt.Sprintf("Opus duration alphabet (opus-durations): %d packet layouts = all 32 TOC configurations (2.5/5/10/20/40/60 ms) with one frame, frame count codes 1 and 2, code 3 with M in {1,2,3,5,6,12,24,48} plain / VBR flag / padding flag, ", len(opusVars)) +
+		"plus 1-byte, max-1, max, max+1 byte packets, all lists of <=2 packets and triples over one packet per duration and code, so that durations vary between consecutive units and inside a unit; " +
 		"three entry conditions (non-RTP publisher; H.264 packetization-mode 0 forced remux of an RTP publisher; RTP publisher whose packets exceed the maximum). " +
 		"distinct = (entry+format, max, size-class shape of the elements, single/aggregated/fragmented, packet count, biggest payload vs max)"
 	r.Exhaustive = true
 	r.Assumptions = []string{
 		"exhaustive inside the size alphabet, not over all payload contents (contents are a fixed byte pattern without start codes)",
 		"the sequence-number, timestamp and size checks use only the statement; losslessness is judged with the repository's rtpDecoder (trusted as the depacketizer)",
-		"timestamps inside a unit: video formats must repeat the first packet's timestamp; audio formats (frames spread over packets) only must not go backwards (don't-care extended from Opus to all audio formats)",
+		"timestamps: the first packet of every unit must carry PTS + one constant per stream whatever the unit contains (PTS advances by a constant 3000, unrelated to the content); inside a unit video formats must repeat the first packet's timestamp; " +
+			"audio / KLV: packet k must carry the first packet's timestamp + the playing time, on the format's RTP clock, of the elements completed by the packets before it (fragments of one element share a timestamp) - the reading 'each packet is stamped with the time of its first sample' of the statement's 'unit timestamp plus a fixed offset'",
+		"playing times come from a reference model written from the codec specifications (Opus: RFC 6716 TOC table x frame count; AAC-LC 1024, AC-3 1536, MPEG-1 audio layer II/III 1152 samples on the 90 kHz MPA clock with floor..ceil accepted, PCM: bytes / sample size); which elements a packet completes is taken from the repository's rtpDecoder",
+		"MPEG-2 LSF audio frames (576 samples) and AAC with 960-sample frames are outside the alphabet; Opus packets are structurally valid (RFC 6716 section 3.2) but carry pattern bytes, malformed code-3 packets (M = 0, one byte) are outside the alphabet",
 		"units the stream rejects (processing error) generate no packet: counted, not judged",
 		"M-JPEG: RTP/JPEG regenerates the JPEG headers, so the round trip is compared on decoded pixels",
 		"FLAC (Generic) has an empty encoder: no packets are generated, nothing to judge",
